@@ -56,3 +56,12 @@ func VerifLockedKeys(c Cache) int {
 	defer cc.waitingReadersLock.Unlock()
 	return len(cc.waitingReaders)
 }
+
+// VerifSetCreated pre-sets the creation stamp of a storage writer so that a harness with an
+// injected clock sees one consistent time source (storageWriter otherwise stamps Created
+// with the wall clock while ages are computed with the injected one).
+func VerifSetCreated(w StorageWriter, t int64) {
+	if sw, ok := w.(*storageWriter); ok {
+		sw.created = t
+	}
+}
